@@ -12,6 +12,7 @@ mod cmd;
 mod verif;
 
 mod rng;
+mod watch;
 mod apply_engine;
 mod dist_engine;
 mod path_engine;
